@@ -404,6 +404,9 @@ def discharge(mod, pid, cfg, o, A, B, timeout_ms, seed, path, swept_goal=None):
                 if res.verdict == 'cex':
                     # a model of the swept goal is a model of the original (merges are equalities)
                     pass
+        elif o.meta.get('search_only'):
+            # the proof of this statement is carried by other obligations (a lemma chain): here only the search for violations ran
+            res = prove.Result('searched', note='search for violations only (simulation-guided models); proved through: ' + str(o.meta['search_only']))
         elif o.meta.get('sqrt_level') == 0:
             # CEGAR on square roots: level 0 keeps only s >= 0; a model found there is only a proposal, re-decided exactly
             res = prove.valid(goal, AA, to, sqrt_exact=False)
@@ -730,7 +733,7 @@ def main(argv=None):
 def report(mod, pid, tier, seed, recs, wall, verbose=False):
     from . import loader
     known = load_known()
-    counts = {'proved': 0, 'cex': 0, 'unknown': 0}
+    counts = {'proved': 0, 'cex': 0, 'unknown': 0, 'searched': 0}
     violations = []
     known_hits = {}
     harness_errors = []
@@ -826,6 +829,7 @@ def report(mod, pid, tier, seed, recs, wall, verbose=False):
             'discharged': counts.get('proved', 0),
             'discharged_syntactically': nob - len(nontrivial) - counts.get('cex', 0) - counts.get('unknown', 0),
             'inconclusive': len(inconclusive),
+            'searched_only_proved_through_lemma_chain': counts.get('searched', 0),
             'inconclusive_list': inconclusive[:40],
             'counterexamples_replayed': counts.get('cex', 0),
             'known_findings_matched': {k: len(v) for k, v in known_hits.items()},
